@@ -180,6 +180,10 @@ func (s *Sensitive) PType() px.Type {
 	return NewSensitiveType(s.Unwrap().PType())
 }
 
+func (s *Sensitive) DetailedType() px.Type {
+	return NewSensitiveType(px.DetailedValueType(s.Unwrap()))
+}
+
 func (s *Sensitive) Unwrap() px.Value {
 	return s.Value
 }
